@@ -1,6 +1,7 @@
 (* C03: a dumped data package loads back to the same typed data. *)
 From Coq Require Import List ZArith Bool.
 From DF Require Import Base.Str Base.Lits Base.Value IO.Csv IO.Csv_proofs IO.Codec IO.Codec_proofs Gen.Consts.
+From DF Require IO.EJson IO.JsonText IO.JsonText_proofs.
 Import ListNotations.
 Open Scope Z_scope.
 
@@ -69,6 +70,13 @@ Theorem C03_dump_load_csv_total : forall int_str int_parse dec_str dec_parse dat
                /\ cast_rows int_parse dec_parse date_parse time_parse dt_parse year_parse json_parse schema body = Some rows.
 Proof. exact dump_load_csv_total. Qed.
 Print Assumptions C03_dump_load_csv_total.
+
+(* the JSON file format ('[' + rows joined by commas + ']', each row json.dumps of an object): json.loads of the written
+   text returns exactly the rows, for any number of rows and any float-free values with valid code points *)
+Theorem C03_json_file_roundtrip : forall rows,
+  JsonText_proofs.iok rows -> JsonText.jparse (JsonText.json_file rows) = Some (EJson.JArr rows).
+Proof. exact JsonText_proofs.jparse_json_file. Qed.
+Print Assumptions C03_json_file_roundtrip.
 
 (* tie to the source (regenerated): what the CSV dumper stamps into the descriptor is what the
    cell codecs above assume -- '' is the null text, booleans are written as True/False *)
